@@ -235,3 +235,29 @@ Example C42_example :
   match_set p (1, 5) (2, 7) (Pfx false 0 0) (false, 168427521) = true /\
   match_set p (2, 5) (2, 7) (Pfx false 0 0) (false, 167838209) = true.
 Proof. vm_compute. repeat split; reflexivity. Qed.
+
+(** Non-vacuity of the text round trip: a policy with a negated ISD-AS matcher, a
+    negated list of two prefixes, a comment containing '#', and an advertise rule
+    with a next hop; its marshalled text (two aligned lines) parses back to the same
+    rules, comments included. *)
+Example C42_text_roundtrip_example :
+  let tb : atoms :=
+    [Atom (str "1-0") (Some (1, 0)) None None true;
+     Atom (str "0-0") (Some (0, 0)) None None true;
+     Atom (str "10.0.0.0/8") None (Some (Pfx false 167772160 8)) None true;
+     Atom (str "10.1.0.0/16") None (Some (Pfx false 167837696 16)) None true;
+     Atom (str "10.0.0.1") None None (Some (false, 167772161)) true] in
+  let p := Policy
+    [Rule AReject (IAM true 1 0) (IAM false 0 0)
+          (NetM [Pfx false 167837696 16; Pfx false 167772160 8] true) None (str "x # y");
+     Rule AAdvertise (IAM false 0 0) (IAM false 0 0)
+          (NetM [Pfx false 167772160 8] false) (Some (false, 167772161)) []] AReject in
+  tb_ok tb = true /\ forallb image_rule (p_rules p) = true /\
+  marshal tb p = Some (str "reject       !1-0    0-0    !10.1.0.0/16,10.0.0.0/8                # x # y
+advertise    0-0     0-0    10.0.0.0/8                 10.0.0.1
+") /\
+  exists s, marshal tb p = Some s /\ unmarshal tb s = Ok (p_rules p) /\
+            advertise_list p (2, 2) (3, 3) = [Pfx false 167772160 8].
+Proof.
+  vm_compute. repeat split; try reflexivity. eexists. repeat split; reflexivity.
+Qed.
